@@ -97,7 +97,7 @@ def run(R, replay=None):
     open(f_, "w").write(src_)
     import reports as _reports
     import xml.etree.ElementTree as _ET
-    for fmt in ("json", "yaml", "xml", "sarif"):
+    for fmt in ("json", "yaml", "xml", "sarif", "html", "csv", "txt"):
         out_ = os.path.join(d_, "r.out")
         r_ = climain.run_main(["-q", "-f", fmt, "-o", out_, f_])
         R.case(("links", fmt), sample={"format": fmt, "exit": r_["exit"]})
@@ -118,6 +118,14 @@ def run(R, replay=None):
                 if err is not None:
                     m_id = re.search(r"Test ID: (\S+)", err.text or "")
                     pairs.append((m_id.group(1) if m_id else None, err.get("more_info")))
+        elif fmt == "html":
+            pairs = re.findall(r"<b>Test ID:</b>\s*(B\d+)<br>.*?<b>More info: </b><a href=\"([^\"]*)\"", text_, re.S)
+        elif fmt == "csv":
+            import csv as _csv
+            import io as _io
+            pairs = [(row["test_id"], row["more_info"]) for row in _csv.DictReader(_io.StringIO(text_, newline=""))]
+        elif fmt == "txt":
+            pairs = re.findall(r">> Issue: \[(B\d+):[^\]]*\].*?More Info: (\S+)", text_, re.S)
         elif fmt == "sarif":
             j_ = json.loads(text_)
             rules_ = {ru["id"]: ru.get("helpUri") for ru in j_["runs"][0]["tool"]["driver"].get("rules", [])}
@@ -129,6 +137,45 @@ def run(R, replay=None):
                 break
         if len([1 for t_, _ in pairs if t_ and t_.startswith("B")]) < 8:
             R.violations.append({"what": "format %s: expected at least 8 records with links, found %d" % (fmt, len(pairs)), "input": {"src": src_}, "observed": pairs, "signature": None})
+    # ---- ... nor on a report having been written before the first name was ever looked up (a fresh process: scan, write a
+    # report that links every blacklist rule it found, only then resolve every registered name)
+    import subprocess as _sp
+    import sys as _sys
+    script_ = (
+        "import json, sys, tempfile, os\n"
+        "from bandit.core import config, manager, extension_loader\n"
+        "from bandit.core import manager as bman\n"
+        "d = tempfile.mkdtemp()\n"
+        "f = os.path.join(d, 'first.py')\n"
+        "open(f, 'w').write('import pickle, subprocess, telnetlib\\nimport xml.sax\\npickle.loads(x)\\nimport random\\nrandom.random()\\n'\n"
+        "                   'import tempfile\\ntempfile.mktemp()\\nimport urllib.request\\nurllib.request.urlopen(u)\\n')\n"
+        "m = manager.BanditManager(config.BanditConfig(), 'file')\n"
+        "m.discover_files([f]); m.run_tests()\n"
+        "for fmt in ('json', 'html'):\n"
+        "    m.output_results(3, 'LOW', 'LOW', open(os.path.join(d, 'r.' + fmt), 'w'), fmt, None)\n"
+        "man = extension_loader.MANAGER\n"
+        "bad = []\n"
+        "rows = [(p.plugin._test_id, p.name) for p in man.plugins] + [(b['id'], n) for n, b in sorted(man.blacklist_by_name.items())]\n"
+        "for i, n in rows:\n"
+        "    if man.get_test_id(n) != i: bad.append(['get_test_id', n, man.get_test_id(n), i])\n"
+        "    got = bman._parse_nosec_comment('# nosec ' + n + ', B999x')\n"
+        "    if got is None or set(got) != {i}: bad.append(['nosec', n, None if got is None else sorted(got), i])\n"
+        "import shutil; shutil.rmtree(d, ignore_errors=True)\n"
+        "print(json.dumps({'rows': len(rows), 'bad': bad[:10]}))\n")
+    pr_ = _sp.run([_sys.executable, "-c", script_], capture_output=True, text=True, timeout=300,
+                  env=dict(os.environ, PYTHONPATH=core.REPO, PYTHONHASHSEED="0"))
+    R.case(("report-then-lookup",), nontrivial=True, sample={"exit": pr_.returncode})
+    R.count("report-then-lookup")
+    try:
+        res_ = json.loads(pr_.stdout.strip().splitlines()[-1])
+    except Exception:  # noqa: BLE001
+        res_ = None
+    if res_ is None or res_["rows"] < 60:
+        R.violations.append({"what": "a process that writes a report and then resolves every registered name does not complete", "input": "report, then lookups",
+                             "observed": (pr_.stderr or pr_.stdout)[-400:], "signature": None})
+    elif res_["bad"]:
+        R.violations.append({"what": "after a report was written, the name %s resolves to %s instead of %s (%s)" % (res_["bad"][0][1], res_["bad"][0][2], res_["bad"][0][3], res_["bad"][0][0]),
+                             "input": "fresh process: scan, write json+html reports, then resolve every registered name", "observed": res_["bad"], "signature": None})
     # ---- name lookups do not depend on what the parser has seen before (free text after a nosec, other capitalisations)
     for noise in ("# nosec B311 Random numbers only for jitter", "# nosec b311 Pickle Eval MD5 Assert_Used", "# nosec IMPORT_TELNETLIB EXEC_USED"):
         bman._parse_nosec_comment(noise)
